@@ -239,6 +239,9 @@ fn keyapi_job(ctx: &Ctx, s: &dyn SuiteOps) -> (u64, Vec<Found>, Vec<u64>) {
     let cat = catalog::load(&ctx.verif_dir, s.ke());
     for which in 0..4u8 {
         let base = if which == 0 { pk.clone() } else { sk.clone() };
+        if base.is_empty() {
+            continue; // the honest setup itself is broken: C01's business
+        }
         let mut inputs: Vec<(String, Vec<u8>)> = vec![("valid".into(), base.clone())];
         for len in 0..=base.len() + 8 {
             let mut b = base.clone();
